@@ -38,6 +38,15 @@ SameTree == RunTree(Doc).res = "ok" => \A m \in 1..Len(Closures(Doc)) :
 SameCatalog == LET a == Build(Doc) IN \A m \in 1..Len(Closures(Doc)) :
                  LET b == Build(Closures(Doc)[m]) IN a.res = b.res /\ a.cls = b.cls /\ a.skel = b.skel
 
+\* the nesting of the expanded tree (what the MACRO/PASTE pass must produce), as text: kind(children) kind ...
+RECURSIVE ShapeList(_, _, _), ShapeNode(_, _)
+ShapeNode(X, j) == IF X.nodes[j].k = "MACRO" THEN ""
+                   ELSE LET ks == Kids(X, j) IN X.nodes[j].k \o (IF ks = <<>> THEN "" ELSE "(" \o ShapeList(X, ks, 1) \o ")") \o " "
+ShapeList(X, js, i) == IF i > Len(js) THEN "" ELSE ShapeNode(X, js[i]) \o ShapeList(X, js, i + 1)
+XShape(toks) == LET T == RunTree(toks)  X == Expand(T) IN
+                IF T.res = "ok" THEN (IF X.res = "ok" THEN ShapeList(X, Kids(X, 0), 1) ELSE "-") ELSE "-"
+
 ASSUME PrintT("L " \o ToJson(PoolsJson))
-Emit == PrintT("E " \o ToJson([blocks |-> bs', doc |-> DocOf(bs'), closures |-> Closures(DocOf(bs')), x |-> Build(DocOf(bs'))]))
+Emit == PrintT("E " \o ToJson([blocks |-> bs', doc |-> DocOf(bs'), closures |-> Closures(DocOf(bs')), x |-> Build(DocOf(bs')),
+                               xshape |-> XShape(DocOf(bs'))]))
 =============================================================================
